@@ -147,7 +147,7 @@ _BUILTIN = {
                 pointer_type=0x0f, compile_unit=0x11, structure_type=0x13, typedef=0x16,
                 base_type=0x24, const_type=0x26, enumerator=0x28, subprogram=0x2e,
                 template_value_parameter=0x30, variable=0x34, namespace=0x39,
-                partial_unit=0x3c, imported_unit=0x3d),
+                partial_unit=0x3c, imported_unit=0x3d, type_unit=0x41),
     "AT": dict(sibling=0x01, location=0x02, name=0x03, byte_size=0x0b, low_pc=0x11, high_pc=0x12,
                language=0x13, import_=0x18, const_value=0x1c, producer=0x25, comp_dir=0x1b,
                abstract_origin=0x31, data_member_location=0x38, decl_line=0x3b,
@@ -568,7 +568,7 @@ class Attr:
 
 class Die:
     __slots__ = ("tag", "attrs", "children", "has_children", "offset", "abbrev_code",
-                 "unit", "parent", "depth", "rank", "enum_form")
+                 "unit", "parent", "depth", "rank", "enum_form", "enum_mixed")
 
     def __init__(self, tag, unit, parent=None):
         self.tag = tag
@@ -582,6 +582,7 @@ class Die:
         self.depth = 0 if parent is None else parent.depth + 1
         self.rank = 0
         self.enum_form = None
+        self.enum_mixed = False
 
     def add(self, name, form, val):
         a = Attr(A[name] if isinstance(name, str) else name,
@@ -613,9 +614,12 @@ class Unit:
         self.budget = 0
         self.imports = []               # Units this one imports (with multiplicity)
         self.level = 0                  # partial units: import nesting level
+        self.type_unit = False          # a DWARF 5 type unit in .debug_info (DW_UT_type, root DW_TAG_type_unit)
 
     @property
     def header_size(self):
+        if self.type_unit:
+            return 24
         return 12 if self.version >= 5 else 11
 
     @property
@@ -777,8 +781,12 @@ class Forest:
             length = u.header_size - 4 + len(body)
             hdr = struct.pack("<IH", length, u.version)
             if u.version >= 5:
-                hdr += bytes([DW_UT["partial"] if u.partial else DW_UT["compile"], ADDRESS_SIZE])
+                hdr += bytes([DW_UT["type"] if u.type_unit else DW_UT["partial"] if u.partial else DW_UT["compile"],
+                              ADDRESS_SIZE])
                 hdr += struct.pack("<I", u.table.offset)
+                if u.type_unit:
+                    # type_signature, type_offset (the root: the generator does not single out one type)
+                    hdr += struct.pack("<QI", 0x7e57000000000000 + u.index, u.header_size)
             else:
                 hdr += struct.pack("<I", u.table.offset) + bytes([ADDRESS_SIZE])
             assert len(hdr) == u.header_size
@@ -853,7 +861,7 @@ class Forest:
         units = []
         for u in self.units:
             units.append({"offset": u.offset, "version": u.version,
-                          "unit_type": "partial" if u.partial else "compile",
+                          "unit_type": "type" if u.type_unit else "partial" if u.partial else "compile",
                           "header_size": u.header_size, "abbrev_offset": u.table.offset,
                           "address_size": ADDRESS_SIZE, "root": self._die(u.root),
                           "length": u.end - u.offset - 4, "end": u.end,
@@ -986,7 +994,7 @@ _DEFAULTS = dict(min_units=1, max_units=4, max_depth=4, max_dies=40, versions=(2
                  partial_units=True, refs=True, share_abbrev=0.5, sibling=0.35, strp=0.5,
                  lone_null=0.15, odd_codes=0.3, cross_unit_chains=False, max_chain=4,
                  llvm_safe=True, v4_block_locations=False, extras=0.3, refused=0.0, cu_imports=0.0, dup_attrs=0.0, implicit_consts=0.0, const_blocks=0.0, empty_ranges=0.0,
-                 rich_ops=0.0, loclists=0.0,
+                 rich_ops=0.0, loclists=0.0, type_units=0.0, mixed_enums=0.0,
                  const_forms=("data1", "data2", "data4", "data8", "sdata", "udata"))
 
 _WORDS = ["foo", "bar", "baz", "qux", "main", "x", "y", "i", "T", "value", "next", "node",
@@ -1005,7 +1013,7 @@ _SCOPE_TAGS = [("subprogram", 4), ("variable", 4), ("base_type", 3), ("typedef",
                ("const_type", 2), ("pointer_type", 2), ("enumeration_type", 2),
                ("structure_type", 2), ("namespace", 2)]
 _CHILD_TAGS = {
-    "compile_unit": _SCOPE_TAGS, "partial_unit": _SCOPE_TAGS, "namespace": _SCOPE_TAGS,
+    "compile_unit": _SCOPE_TAGS, "partial_unit": _SCOPE_TAGS, "type_unit": _SCOPE_TAGS, "namespace": _SCOPE_TAGS,
     "subprogram": [("formal_parameter", 4), ("template_value_parameter", 1), ("variable", 3),
                    ("lexical_block", 2)],
     "lexical_block": [("variable", 4), ("lexical_block", 2)],
@@ -1467,7 +1475,8 @@ class ForestGen:
                 self._add_name(d)
             if self._chance(0.8):
                 d.add("byte_size", "data1", r.choice([1, 2, 4, 4, 8]))
-            if self._chance(0.2):
+            d.enum_mixed = self._chance(self.opts["mixed_enums"])
+            if self._chance(0.2) and not d.enum_mixed:
                 d.add("encoding", "data1", E[r.choice(["signed", "unsigned"])])
             if self._chance(0.3):
                 self._add_decl_line(d)
@@ -1475,6 +1484,9 @@ class ForestGen:
             self._add_name(d)
             if self._chance(0.95):
                 form = d.parent.enum_form
+                if getattr(d.parent, "enum_mixed", False):
+                    # no encoding: the sign has to come from the forms of ALL the enumerators, in whatever order
+                    form = r.choice(["sdata", "udata", "udata", "data1", "data4"])
                 d.add("const_value", *self._const(form if self._chance(0.8) else None))
         elif tn == "structure_type":
             if self._chance(0.8):
@@ -1593,7 +1605,7 @@ class ForestGen:
             n = r.choice([0, 0, 1, 2, 2, 3, 4, 6])
         if tn == "enumeration_type":
             d.enum_form = r.choice(self.opts["const_forms"])
-            n = r.choice([0, 1, 2, 3, 5])
+            n = r.choice([2, 3, 4, 5]) if d.enum_mixed else r.choice([0, 1, 2, 3, 5])
         for i in range(n):
             if u.budget <= 0:
                 break
@@ -1609,7 +1621,7 @@ class ForestGen:
 
     def _build_unit(self, u):
         r = self.rng
-        root = Die(T["partial_unit" if u.partial else "compile_unit"], u)
+        root = Die(T["type_unit" if u.type_unit else "partial_unit" if u.partial else "compile_unit"], u)
         u.root = root
         u.budget = self.opts["max_dies"] - 1 - len(u.imports)
         shape = self._weighted([("normal", 5), ("deep", 2), ("wide", 2), ("empty", 1), ("tiny", 1)])
@@ -1651,7 +1663,7 @@ class ForestGen:
         r = self.rng
         for target in u.imports:
             hosts = [d for d in u.root.walk()
-                     if self._tagname(d) in ("compile_unit", "partial_unit", "namespace",
+                     if self._tagname(d) in ("compile_unit", "partial_unit", "type_unit", "namespace",
                                              "structure_type", "subprogram", "lexical_block")
                      and d.depth < self.opts["max_depth"]]
             host = u.root if self._chance(0.7) or not hosts else r.choice(hosts)
@@ -1686,7 +1698,7 @@ class ForestGen:
         for u in units:
             for d in list(u.root.walk()):
                 tn = self._tagname(d)
-                if tn not in _TYPED_TAGS:
+                if tn not in _TYPED_TAGS or d.enum_mixed:
                     continue
                 p = {"subprogram": 0.5, "pointer_type": 0.8, "const_type": 0.8,
                      "enumeration_type": 0.5, "template_value_parameter": 0.85}.get(tn, 0.9)
@@ -1736,6 +1748,18 @@ class ForestGen:
                     names = [x.name for x in d.attrs]
                     pos = names.index(A["name"]) + 1 if A["name"] in names else 0
                 d.attrs.insert(pos, a)
+        # constants of an enumeration whose sign has to be inferred from its enumerators: fixed-size forms
+        # with the top bit set are the ones whose reading depends on the inference
+        for u in units:
+            for d in list(u.root.walk()):
+                if d.enum_mixed and d.parent is not None:
+                    for _ in range(r.randint(2, 3)):
+                        v = Die(T["variable"], u, d.parent)
+                        d.parent.children.append(v)
+                        self._add_name(v)
+                        v.add("type", "ref4", d)
+                        form = r.choice(["data1", "data2", "data4", "data8", "data8"])
+                        v.add("const_value", form, r.choice(_BOUNDARY[form][3:5] + [r.randrange(1 << (8 * _FIXED[F[form]]))]))
 
     def _add_chains(self, units):
         """DW_AT_specification / DW_AT_abstract_origin edges; edges only lead from an
@@ -1895,6 +1919,13 @@ class ForestGen:
                 for c2 in cus[:j]:
                     if self._chance(o["cu_imports"]):
                         c.imports.insert(r.randint(0, len(c.imports)), c2)
+        # DWARF 5 type units live in .debug_info beside the compilation units: a unit whose root is neither
+        # DW_TAG_compile_unit nor DW_TAG_partial_unit
+        if o.get("type_units", 0.0) > 0:
+            for c in cus:
+                if (c.version >= 5 or 5 in o["versions"]) and self._chance(o["type_units"]):
+                    c.version = 5
+                    c.type_unit = True
         for u in units:
             del u.imports[max(0, o["max_dies"] - 1):]
         return units
